@@ -111,20 +111,15 @@ func checkC01(c *Ctx) {
 	var badD []string
 	for _, s := range dSites {
 		F := s.Parent()
-		reads := false
-		eng.EachInstr(F, func(in ssa.Instruction) {
-			if call, ok := in.(*ssa.Call); ok && eng.StaticCallee(call.Common()) == m.dataRead {
-				reads = true
-			}
-		})
+		_, _, reads := m.liftToDataReader(p, s)
 		if !reads {
 			badD = append(badD, shortFn(F)+" at "+p.InstrPos(s))
 		}
 	}
 	if len(badD) > 0 {
-		r.Bad("C01/WMC", "Deliver", "", "Manager.Deliver is called from a function that does not read the SMTP DATA block: %s", strings.Join(badD, "; "))
+		r.Bad("C01/WMC", "Deliver", "", "Manager.Deliver is called from a function that neither reads the SMTP DATA block nor is called only from the function that does: %s", strings.Join(badD, "; "))
 	} else {
-		r.Ok("C01/WMC", "Deliver", "", "%d call site(s) of Manager.Deliver, all in the DATA-reading SMTP function", len(dSites))
+		r.Ok("C01/WMC", "Deliver", "", "%d call site(s) of Manager.Deliver, all in the DATA-reading SMTP function (or a helper called only from it)", len(dSites))
 	}
 	r.Floor("C01/WMC", "Manager.Deliver call sites", len(dSites), 1)
 
@@ -228,6 +223,25 @@ func checkC01(c *Ctx) {
 				case *ssa.Call:
 					if strings.Contains(eng.CalleeName(x.Common()), "EventBroker") && strings.HasSuffix(eng.CalleeObj(x.Common()).Name(), "Emit") {
 						nEmit++
+					}
+				}
+				// the pre-hook message built by a helper of the package: every value it returns
+				// is a fresh record (or nil together with an error)
+				if call, idx := eng.CallAndIndex(e); call != nil {
+					if rets, g := eng.ReturnedValues(call, idx); g != nil && eng.FuncPkgPath(g) == eng.FuncPkgPath(deliver) && len(rets) > 0 {
+						fresh, n := true, 0
+						for _, rv := range rets {
+							if eng.IsNilConst(rv) {
+								continue
+							}
+							if _, isAl := rv.(*ssa.Alloc); !isAl {
+								fresh = false
+							}
+							n++
+						}
+						if fresh && n > 0 {
+							nAlloc++
+						}
 					}
 				}
 			}
@@ -630,23 +644,7 @@ func (c *Ctx) c01Meta(deliver *ssa.Function, adds []*ssa.Call, postHook ssa.Valu
 	want := map[string]string{"From": "From", "To": "To", "Subject": "Subject", "Size": "Size"}
 	got := map[string]bool{}
 	var probs []string
-	eng.EachInstr(adds[0].Parent(), func(in ssa.Instruction) {
-		st, ok := in.(*ssa.Store)
-		if !ok {
-			return
-		}
-		fa, ok := st.Addr.(*ssa.FieldAddr)
-		if !ok {
-			return
-		}
-		outer, ok := fa.X.(*ssa.FieldAddr)
-		if !ok || !eng.SameField(eng.FieldOfAddr(outer), fMeta) {
-			return
-		}
-		if !eng.Dominates(st, adds[0]) {
-			return
-		}
-		name := eng.FieldOfAddr(fa).Name()
+	checkField := func(name string, st *ssa.Store) {
 		got[name] = true
 		switch {
 		case name == "Mailbox":
@@ -674,6 +672,53 @@ func (c *Ctx) c01Meta(deliver *ssa.Function, adds []*ssa.Call, postHook ssa.Valu
 				probs = append(probs, "Meta."+name+" is not read from the post-hook InboundMessage."+want[name]+" (at "+p.InstrPos(st)+"): a hook's replacement would be ignored or the wrong value stored")
 			}
 		}
+	}
+	eng.EachInstr(adds[0].Parent(), func(in ssa.Instruction) {
+		st, ok := in.(*ssa.Store)
+		if !ok {
+			return
+		}
+		fa, ok := st.Addr.(*ssa.FieldAddr)
+		if !ok {
+			return
+		}
+		if eng.SameField(eng.FieldOfAddr(fa), fMeta) && eng.Dominates(st, adds[0]) {
+			// the whole record built by a helper of the package: Meta: deliveryMetadata(msg, mb, now)
+			if call, idx := eng.CallAndIndex(st.Val); call != nil {
+				if rets, g := eng.ReturnedValues(call, idx); g != nil && len(p.StaticCallSites(g)) == 1 {
+					for _, rv := range rets {
+						u, ok := rv.(*ssa.UnOp)
+						if !ok {
+							continue
+						}
+						al, ok := u.X.(*ssa.Alloc)
+						if !ok || al.Referrers() == nil {
+							continue
+						}
+						for _, ref := range *al.Referrers() {
+							fa2, ok := ref.(*ssa.FieldAddr)
+							if !ok {
+								continue
+							}
+							for _, r2 := range *fa2.Referrers() {
+								if st2, ok := r2.(*ssa.Store); ok && st2.Addr == ssa.Value(fa2) {
+									checkField(eng.FieldOfAddr(fa2).Name(), st2)
+								}
+							}
+						}
+					}
+				}
+			}
+			return
+		}
+		outer, ok := fa.X.(*ssa.FieldAddr)
+		if !ok || !eng.SameField(eng.FieldOfAddr(outer), fMeta) {
+			return
+		}
+		if !eng.Dominates(st, adds[0]) {
+			return
+		}
+		checkField(eng.FieldOfAddr(fa).Name(), st)
 	})
 	for _, k := range []string{"Mailbox", "From", "To", "Subject", "Size", "Date"} {
 		if !got[k] {
